@@ -122,6 +122,40 @@ def known_finding(scn, dry, real):
     return None
 
 
+def real_stream(chk, rng, n, stats):
+    """Real gatherers, sorter and templates (no plan injection), each scenario run dry and for real: input directories
+    listed once, twice, nested (-r in in/sub) or together with one of their files; templates that are idempotent or not."""
+    import os
+    from cli_driver import run_cli
+    from sandbox import Sandbox
+    names = ["a.txt", "b.txt", "c.dat", "x_a.txt", "A.TXT", "noext", "é.txt"]
+    for _ in range(n):
+        spec = [("out/keep.txt", "f", "keep")]
+        cid = 0
+        for d in ("in", "in/sub", "in2"):
+            for nm in rng.sample(names, rng.randrange(1, 5)):
+                cid += 1
+                spec.append((d + "/" + nm, "f", "c%d" % cid))
+        tpl = rng.choice(["x_%Name()", "%Upper{%Name()}", "%Lower{%Name()}", "%Base()_1%Ext()", "%Count(width=2)%Ext()", "%Name()"])
+        inputs = rng.choice([["in"], ["in", "in"], ["in", "in/sub"], ["in/sub", "in"], ["in", "in2", "in"], ["in", "in/" + spec[1][0].split("/")[-1]], ["in2", "in"]])
+        inputs = [i for i in inputs if i in ("in", "in2", "in/sub") or any(p == i for p, _, _ in spec)]
+        flags = [rng.choice(["-cs", "-ci"])] + (["-r"] if rng.random() < 0.6 else []) + (["-s", "%Name()"] if rng.random() < 0.3 else [])
+        res = {}
+        for dry in (True, False):
+            with Sandbox() as root:
+                pipe.materialise(root, spec)
+                argv = ["-n"] + flags + (["-dr"] if dry else []) + ["--", tpl] + inputs
+                r = run_cli(argv, root, root=root, snapshots=False)
+                res[dry] = (r.status, r.report(), r.stderr[-200:])
+        stats["real_stream_runs"] = stats.get("real_stream_runs", 0) + 1
+        chk.count(("real", tpl, tuple(flags), tuple(inputs), json.dumps(spec)), nontrivial=bool(res[False][1]))
+        if res[True][:2] != res[False][:2]:
+            chk.oracle_fail("dry run: status %s, report %r; real run: status %s, report %r" % (res[True][0], res[True][1][:4], res[False][0], res[False][1][:4]),
+                            {"scenario": {"mode": "name", "strategy": flags[0], "answers": [], "plan": [], "tree": spec, "argv": ["-n"] + flags + ["--", tpl] + inputs},
+                             "dry": {"status": res[True][0], "report": res[True][1], "stderr": res[True][2]},
+                             "real": {"status": res[False][0], "report": res[False][1], "stderr": res[False][2]}})
+
+
 def run(chk):
     rng = chk.rng
     quick = chk.tier == "quick"
@@ -157,6 +191,7 @@ def run(chk):
         all_s += [s_real, s_dry]
         all_o += [real, dry]
     excluded = pipe.check_cases(chk, all_s, all_o)
+    real_stream(chk, rng, 120 if quick else 5000, stats)
     for s, o in list(zip(all_s, all_o))[:4]:
         chk.sample({"mode": s["mode"], "strategy": s["strategy"], "dry": s["dry"], "plan": [(e["dir"], e["rel"], e["r"]) for e in s["plan"]][:4],
                     "status": o["status"], "report": o["report"][:3]})
